@@ -24,7 +24,11 @@ Record netcfg := mkNet {
   n_period : Q;                        (* minutes *)
   n_cmat : list (list Q);              (* constraint matrix, row per constraint *)
   n_limits : list Q;
-  n_cids : list Z }.
+  n_cids : list Z;
+  (* constraints changed in place while the simulation runs (update/add/remove_constraint between two
+     scheduler invocations): (period in which the change was made, new matrix / limits / names), in
+     chronological order.  A change made in period u is visible to every later invocation. *)
+  n_updates : list (Z * (list (list Q) * list Q * list Z)) }.
 
 Definition station_ids (c : netcfg) : list Z := map st_id (n_stations c).
 
@@ -151,13 +155,21 @@ Section Layer.
     v_peak : Q;                         (* interface.get_prev_peak() *)
     v_infra : infra }.                  (* interface.infrastructure_info() *)
 
-  Definition infra_of : infra :=
+  Definition infra_with (c : list (list Q) * list Q * list Z) : infra :=
     let sts := n_stations cfg in
     mkInfra (map st_id sts) (map st_voltage sts) (map st_phase sts)
             (map (fun s => max_rate (st_kind s)) sts) (map (fun s => min_rate (st_kind s)) sts)
             (map (fun s => allowable_pilot_signals (st_kind s)) sts)
             (map (fun s => is_continuous (st_kind s)) sts)
-            (n_cmat cfg) (n_limits cfg) (n_cids cfg).
+            (fst (fst c)) (snd (fst c)) (snd c).
+  (* the network as built *)
+  Definition infra_of : infra := infra_with (n_cmat cfg, n_limits cfg, n_cids cfg).
+  (* the constraints in force when the scheduler is invoked in period t: the last change made in a
+     period strictly before t, else the network as built *)
+  Definition cons_at (t : Z) : list (list Q) * list Q * list Z :=
+    fold_left (fun acc u => if Z.ltb (fst u) t then snd u else acc) (n_updates cfg)
+              (n_cmat cfg, n_limits cfg, n_cids cfg).
+  Definition infra_at (t : Z) : infra := infra_with (cons_at t).
 
   (* network.active_evs: connected and not fully charged, in station order (with the station's index) *)
   Fixpoint active_from (o : occupancy) (ns : numst) (sts : list station_cfg) (i : nat) : list (nat * session) :=
@@ -209,7 +221,7 @@ Section Layer.
                     (map (fun p => mk_sinfo t ns (snd p)) act)
                     (last_pilots t act ns)
                     (map (fun p => (sid (snd p), en_rate (ev_get (snd p) ns))) act)
-                    (ns_peak ns) infra_of).
+                    (ns_peak ns) (infra_at t)).
 End Layer.
 
 (* ------------------------------------------------------------------------------------------ *)
